@@ -646,4 +646,306 @@ example :
       ["v1"] none).1
     = ⟨1, ⟨["p1", "v1"], [("k", "pk")]⟩, false, true, true, false, false, false⟩ := by decide
 
+/-! ## 5. Histories: the negative cache is only ever written for context-free reasons -/
+
+private theorem level_state {α} (a : Action) (env : Env) (d : Desc) (self : Option α) (c : Callable α)
+    (args : List α) (kw : Option (Kw α)) :
+    (level a env d self c args kw).2 = d ∨
+    ((level a env d self c args kw).2 = { d with inCache := true } ∧ mayRemember d a = true) := by
+  cases a with
+  | skip chk upd =>
+    cases upd <;> cases hc : d.cacheable <;> simp [level, Desc.remember, mayRemember, hc, callUnconvertedUpdatesCache]
+  | builtin => simp only [level]; split <;> simp
+  | unknownKind =>
+    simp only [level, handleFailure, mayRemember]
+    split
+    · simp
+    · split
+      · cases hc : d.cacheable <;> simp [Desc.remember, hc, fallbackUpdatesCache, callUnconvertedUpdatesCache]
+      · simp
+  | convert =>
+    simp only [level, mayRemember]
+    split
+    · split <;> simp
+    · rename_i st exc hf
+      simp only [handleFailure]
+      split
+      · simp
+      · split
+        · cases hc : d.cacheable <;> simp [Desc.remember, hc, hf, fallbackUpdatesCache, callUnconvertedUpdatesCache]
+        · simp
+  | unwrap => simp [level]
+  | stuck => simp [level]
+
+private theorem decide_base_remember (d : Desc) (env : Env) (o : Opts)
+    (h : mayRemember d (decide false d env o) = true) : StableExcluded d o := by
+  revert h
+  simp only [decide, chain]
+  repeat
+    rw [decideIn_cons]
+    split
+    · simp_all [actionOf, fires, mayRemember, StableExcluded, allowlistSkippedWhenUserRequested]
+  all_goals simp_all [fires]
+
+private theorem decide_part_remember (d : Desc) (env : Env) (o : Opts)
+    (h : mayRemember d (decide true d env o) = true) : d.artifact = true := by
+  revert h
+  simp only [decide, chain]
+  repeat
+    rw [decideIn_cons]
+    split
+    · simp_all [actionOf, fires, mayRemember]
+  all_goals simp_all [fires]
+
+private theorem benign_refl {α} (o : Opts) (c : Callable α) : Benign o c c := by
+  induction c with
+  | base d s b => simp [Benign]
+  | part d a k i ih => simp [Benign, ih]
+
+private theorem stable_of_set (d : Desc) (o : Opts) :
+    StableExcluded { d with inCache := true } o ↔ StableExcluded d o := by
+  simp [StableExcluded, isUnsupported, unsupportedHit, unsupHolds]
+
+private theorem benign_step {α} (o : Opts) (env : Env) (c c' : Callable α) (args : List α) (kw : Option (Kw α))
+    (h : Benign o c c') : Benign o c (call env o c' args kw).2 := by
+  induction c generalizing c' args kw with
+  | base d s b =>
+    cases c' with
+    | part _ _ _ _ => simp [Benign] at h
+    | base d' s' b' =>
+      obtain ⟨hs, hb, hd⟩ := h
+      simp only [call, Benign]
+      refine ⟨hs, hb, ?_⟩
+      rcases level_state (decide false d' env o) env d' s' (.base d' s' b') args kw with h1 | ⟨h1, h2⟩
+      · rw [h1]; exact hd
+      · rw [h1]
+        have hst := decide_base_remember d' env o h2
+        rcases hd with rfl | ⟨rfl, hsd⟩
+        · exact Or.inr ⟨rfl, hst⟩
+        · exact Or.inr ⟨rfl, hsd⟩
+  | part d a k i ih =>
+    cases c' with
+    | base _ _ _ => simp [Benign] at h
+    | part d' a' k' i' =>
+      obtain ⟨ha, hk, hd, hi⟩ := h
+      simp only [call]
+      have hart : d'.artifact = d.artifact := by
+        rcases hd with rfl | ⟨rfl, _⟩ <;> rfl
+      cases hdec : decide true d' env o with
+      | unwrap =>
+        simp only [Benign]
+        exact ⟨ha, hk, hd, ih _ _ _ hi⟩
+      | _ =>
+        simp only [Benign]
+        refine ⟨ha, hk, ?_, hi⟩
+        first
+        | (rcases level_state (decide true d' env o) env d' (none : Option α) (.part d' a' k' i') args kw with h1 | ⟨h1, h2⟩
+           · rw [hdec] at h1; rw [h1]; exact hd
+           · rw [hdec] at h1; rw [h1]
+             have hst := decide_part_remember d' env o h2
+             rw [hart] at hst
+             rcases hd with rfl | ⟨rfl, hsd⟩
+             · exact Or.inr ⟨rfl, hst⟩
+             · exact Or.inr ⟨rfl, hsd⟩)
+
+private theorem benign_callSeq {α} (o : Opts) (c c' : Callable α) (hist : List (Env × List α × Option (Kw α)))
+    (h : Benign o c c') : Benign o c (callSeq o c' hist) := by
+  induction hist generalizing c' with
+  | nil => exact h
+  | cons x rest ih =>
+    obtain ⟨env, args, kw⟩ := x
+    exact ih _ (benign_step o env c c' args kw h)
+
+private theorem benign_fail {α} (o : Opts) (c c' : Callable α) (h : Benign o c c') : c'.baseDesc.fail = c.baseDesc.fail := by
+  induction c generalizing c' with
+  | base d s b =>
+    cases c' with
+    | part _ _ _ _ => simp [Benign] at h
+    | base d' s' b' =>
+      obtain ⟨_, _, hd⟩ := h
+      rcases hd with rfl | ⟨rfl, _⟩ <;> rfl
+  | part d a k i ih =>
+    cases c' with
+    | base _ _ _ => simp [Benign] at h
+    | part d' a' k' i' => exact ih i' h.2.2.2
+
+/-- the benign extra cache entries never change whether a conversion is due -/
+private theorem benign_due {α} (o : Opts) (env : Env) (c c' : Callable α) (h : Benign o c c')
+    (hf : c.baseDesc.fail = none) :
+    (c'.passes = true ∧ ¬ Excluded c'.baseDesc env o) ↔ (c.passes = true ∧ ¬ Excluded c.baseDesc env o) := by
+  induction c generalizing c' with
+  | base d s b =>
+    cases c' with
+    | part _ _ _ _ => simp [Benign] at h
+    | base d' s' b' =>
+      obtain ⟨_, _, hd⟩ := h
+      rcases hd with rfl | ⟨rfl, hsd⟩
+      · rfl
+      · simp only [Callable.baseDesc] at hf
+        have hx : Excluded d env o := by
+          rcases hsd with h | h | h | h | h | h | h | h | h
+          · exact Or.inr (Or.inr (Or.inl h))
+          · exact Or.inr (Or.inr (Or.inr (Or.inl h)))
+          · exact Or.inr (Or.inr (Or.inr (Or.inr (Or.inl h))))
+          · exact Or.inr (Or.inr (Or.inr (Or.inr (Or.inr (Or.inl h)))))
+          · exact Or.inr (Or.inr (Or.inr (Or.inr (Or.inr (Or.inr (Or.inl h))))))
+          · exact Or.inr (Or.inr (Or.inr (Or.inr (Or.inr (Or.inr (Or.inr (Or.inl h)))))))
+          · exact Or.inr (Or.inr (Or.inr (Or.inr (Or.inr (Or.inr (Or.inr (Or.inr (Or.inl h))))))))
+          · exact Or.inr (Or.inr (Or.inr (Or.inr (Or.inr (Or.inr (Or.inr (Or.inr (Or.inr h))))))))
+          · simp [hf] at h
+        have hx' : Excluded { d with inCache := true } env o := Or.inl rfl
+        simp [Callable.passes, Callable.baseDesc, hx, hx']
+  | part d a k i ih =>
+    cases c' with
+    | base _ _ _ => simp [Benign] at h
+    | part d' a' k' i' =>
+      obtain ⟨_, _, hd, hi⟩ := h
+      have := ih i' hi (by simpa [Callable.baseDesc] using hf)
+      rcases hd with rfl | ⟨rfl, hart⟩
+      · simp only [Callable.passes, Callable.baseDesc, Bool.and_eq_true] at this ⊢
+        constructor
+        · rintro ⟨⟨h1, h2⟩, h3⟩; exact ⟨⟨h1, (this.mp ⟨h2, h3⟩).1⟩, (this.mp ⟨h2, h3⟩).2⟩
+        · rintro ⟨⟨h1, h2⟩, h3⟩; exact ⟨⟨h1, (this.mpr ⟨h2, h3⟩).1⟩, (this.mpr ⟨h2, h3⟩).2⟩
+      · simp [Callable.passes, hart]
+
+private theorem level_attempted {α} (a : Action) (env : Env) (d : Desc) (self : Option α) (c : Callable α)
+    (args : List α) (kw : Option (Kw α)) :
+    (level a env d self c args kw).1.attempted = true ↔ a = .convert := by
+  cases a with
+  | skip chk upd => simp [level, unconvertedEff, Effect.raise, callUnconvertedHandlesNoneKwargs]
+  | builtin => simp [level, builtinKwargsOnlyWhenTruthy]
+  | unknownKind =>
+    simp only [level, handleFailure]
+    split
+    · simp [Effect.raise]
+    · split <;> simp [unconvertedEff, Effect.raise, callUnconvertedHandlesNoneKwargs]
+  | convert =>
+    simp only [level]
+    split
+    · split <;> simp [Effect.raise]
+    · simp only [handleFailure]
+      split
+      · simp [Effect.raise]
+      · split <;> simp [unconvertedEff, Effect.raise, callUnconvertedHandlesNoneKwargs]
+  | unwrap => simp [level, Effect.raise]
+  | stuck => simp [level, Effect.raise]
+
+/-- A conversion is attempted exactly when every partial level is passed and no exclusion applies to the base. -/
+theorem C13_attempted_iff {α} (env : Env) (o : Opts) (c : Callable α) (args : List α) (kw : Option (Kw α)) :
+    (call env o c args kw).1.attempted = true ↔ (c.passes = true ∧ ¬ Excluded c.baseDesc env o) := by
+  induction c generalizing args kw with
+  | base d self binds =>
+    simp only [call, level_attempted, C13_policy, Callable.passes, Callable.baseDesc, true_and]
+  | part d a0 k0 inner ih =>
+    simp only [call]
+    have hok := decide_partial_ok d env o
+    have hiff := decide_partial_unwrap_iff d env o
+    cases hdec : decide true d env o with
+    | unwrap =>
+      have := hiff.mp hdec
+      simp only [ih, Callable.passes, Callable.baseDesc]
+      simp [this.1, this.2.2]
+    | skip chk upd =>
+      have hne : ¬ (d.inCache = false ∧ env.status ≠ .disabled ∧ d.artifact = false) := by
+        intro h; have := hiff.mpr h; rw [hdec] at this; cases this
+      simp only [level_attempted, Callable.passes, Callable.baseDesc]
+      constructor
+      · intro h; cases h
+      · rintro ⟨hp, hx⟩
+        exfalso
+        apply hne
+        simp only [Bool.and_eq_true, Bool.not_eq_eq_eq_not, Bool.not_true] at hp
+        refine ⟨hp.1.1, ?_, hp.1.2⟩
+        intro hdis
+        exact hx (Or.inr (Or.inl hdis))
+    | _ => simp [hdec, Action.partOk] at hok
+
+/-- **What may write the negative cache.**  A wrapped call leaves the cache facts of the callable unchanged, or remembers it
+for a reason that does not depend on the context of the call: a context-free exclusion (artifact, unsupported,
+allow-listed for these options, non-recursive options, no code, `<string>` code) or a conversion failure.  In particular the
+cache-hit and the DISABLED-context exits never write (they would make a later ENABLED call skip a due conversion). -/
+theorem C13_cache_written_only_when_stable {α} (d : Desc) (s : Option α) (b : Bool) (env : Env) (o : Opts)
+    (args : List α) (kw : Option (Kw α)) :
+    (call env o (.base d s b) args kw).2 = .base d s b ∨
+    ((call env o (.base d s b) args kw).2 = .base { d with inCache := true } s b ∧ StableExcluded d o) := by
+  simp only [call]
+  rcases level_state (decide false d env o) env d s (.base d s b) args kw with h1 | ⟨h1, h2⟩
+  · exact Or.inl (by rw [h1])
+  · exact Or.inr ⟨by rw [h1], decide_base_remember d env o h2⟩
+
+/-- **Histories.**  After ANY sequence of earlier wrapped calls on the same callable with equal options — in any contexts
+(ENABLED / DISABLED / UNSPECIFIED, strict or not), with any arguments — a call converts its target exactly when it would on a
+pristine cache: earlier calls influence the decision only through remembered failures (which never convert anyway). -/
+theorem C13_history_converted {α} (o : Opts) (c : Callable α) (hist : List (Env × List α × Option (Kw α)))
+    (env : Env) (args : List α) (kw : Option (Kw α)) :
+    (call env o (callSeq o c hist) args kw).1.converted = (call env o c args kw).1.converted := by
+  have hb := benign_callSeq o c c hist (benign_refl o c)
+  rw [Bool.eq_iff_iff, C13_converted_iff, C13_converted_iff, benign_fail o c _ hb]
+  by_cases hf : c.baseDesc.fail = none
+  · have := benign_due o env c _ hb hf
+    constructor
+    · rintro ⟨h1, h2, h3⟩; exact ⟨(this.mp ⟨h1, h2⟩).1, (this.mp ⟨h1, h2⟩).2, h3⟩
+    · rintro ⟨h1, h2, h3⟩; exact ⟨(this.mpr ⟨h1, h2⟩).1, (this.mpr ⟨h1, h2⟩).2, h3⟩
+  · simp [hf]
+
+/-- For a callable whose conversion does not fail, not even the *attempt* depends on the history. -/
+theorem C13_history_attempted {α} (o : Opts) (c : Callable α) (hist : List (Env × List α × Option (Kw α)))
+    (env : Env) (args : List α) (kw : Option (Kw α)) (hf : c.baseDesc.fail = none) :
+    (call env o (callSeq o c hist) args kw).1.attempted = (call env o c args kw).1.attempted := by
+  have hb := benign_callSeq o c c hist (benign_refl o c)
+  rw [Bool.eq_iff_iff, C13_attempted_iff, C13_attempted_iff]
+  exact benign_due o env c _ hb hf
+
+/-- Two callables sharing one cache entry (bound methods with the same `__func__`): calls on the first do not change whether the
+second is converted — PROVIDED the context-free exclusions of the first also hold of the second.
+FULL STATEMENT (without `hagree`) is false of the pinned tree, finding C13-shared-function-owner-allowlist: the allow-list of a
+bound method depends on its owner class (TestCase subclass, allow-listed defining class) but the cache key drops the receiver. -/
+theorem C13_history_shared_partial {α} (o : Opts) (d1 d2 : Desc) (s1 s2 : Option α) (b1 b2 : Bool)
+    (hist : List (Env × List α × Option (Kw α))) (env : Env) (args : List α) (kw : Option (Kw α))
+    (h1 : d1.inCache = false) (h2 : d2.inCache = false)
+    (hagree : StableExcluded d1 o → StableExcluded d2 o) :
+    (call env o (.base { d2 with inCache := (callSeq o (.base d1 s1 b1) hist).baseDesc.inCache } s2 b2) args kw).1.converted
+      = (call env o (.base d2 s2 b2) args kw).1.converted := by
+  have hb := benign_callSeq o (.base d1 s1 b1) _ hist (benign_refl o _)
+  cases hc : callSeq o (.base d1 s1 b1) hist with
+  | part _ _ _ _ => rw [hc] at hb; simp [Benign] at hb
+  | base d' s' b' =>
+    rw [hc] at hb
+    obtain ⟨_, _, hd⟩ := hb
+    simp only [Callable.baseDesc]
+    rcases hd with rfl | ⟨rfl, hsd⟩
+    · have : { d2 with inCache := d'.inCache } = d2 := by rw [h1, ← h2]
+      rw [this]
+    · have hb2 : Benign o (.base d2 s2 b2) (.base { d2 with inCache := true } s2 b2) :=
+        ⟨rfl, rfl, Or.inr ⟨rfl, hagree hsd⟩⟩
+      have := C13_history_converted o (.base d2 s2 b2) [] env args kw
+      rw [Bool.eq_iff_iff, C13_converted_iff, C13_converted_iff, benign_fail o _ _ hb2]
+      by_cases hf : (Callable.base d2 s2 b2).baseDesc.fail = none
+      · have hdue := benign_due o env _ _ hb2 hf
+        constructor
+        · rintro ⟨p1, p2, p3⟩; exact ⟨(hdue.mp ⟨p1, p2⟩).1, (hdue.mp ⟨p1, p2⟩).2, p3⟩
+        · rintro ⟨p1, p2, p3⟩; exact ⟨(hdue.mpr ⟨p1, p2⟩).1, (hdue.mpr ⟨p1, p2⟩).2, p3⟩
+      · simp [hf]
+
+/-- The counterexample behind `C13_history_shared_partial`: a method whose owner is a TestCase subclass is remembered, and the
+same function bound to an ordinary instance is then no longer converted. -/
+example :
+    let tc : Desc := ⟨false, true, false, .notBuiltin, false, false, false, false, false,
+      .mk ⟨some ["user"], false, false, true, true, true, true, true, false, false⟩ .opaque .opaque, .method, true, false, none⟩
+    let plainM : Desc := ⟨false, true, false, .notBuiltin, false, false, false, false, false,
+      .mk ⟨some ["user"], false, false, true, true, true, true, false, false, false⟩ .opaque .opaque, .method, true, false, none⟩
+    (call ⟨.enabled, false, true⟩ ⟨false, true⟩
+      (.base { plainM with inCache := (callSeq ⟨false, true⟩ (.base tc (some "A") true) [(⟨.enabled, false, true⟩, ([] : List String), none)]).baseDesc.inCache }
+        (some "B") true) [] none).1.converted = false ∧
+    (call ⟨.enabled, false, true⟩ ⟨false, true⟩ (.base plainM (some "B") true) ([] : List String) none).1.converted = true := by
+  decide
+
+/-! Non-vacuity: DISABLED then ENABLED on a convertible function — the second call converts. -/
+example :
+    (call ⟨.enabled, false, true⟩ ⟨false, true⟩
+      (callSeq ⟨false, true⟩
+        (.base ⟨false, true, false, .notBuiltin, false, false, false, false, false, .opaque, .function, true, false, none⟩ (none : Option String) false)
+        [(⟨.disabled, false, true⟩, [], none), (⟨.disabled, true, true⟩, ["x"], some [])])
+      [] none).1.converted = true := by decide
+
 end Malt.Policy
